@@ -55,7 +55,12 @@ def run_one(args):
     try:
         shutil.copytree(os.path.join(repo, 'smartquery'), os.path.join(dst, 'smartquery'),
                         ignore=shutil.ignore_patterns('__pycache__'))
-        err = apply_edits(dst, entry['edits'])
+        if entry.get('patch'):
+            r = subprocess.run('patch -p1 -s --no-backup-if-mismatch < %s' % os.path.join(VERIF, entry['patch']), shell=True,
+                               cwd=dst, capture_output=True, text=True)
+            err = '' if r.returncode == 0 else 'patch does not apply: ' + (r.stdout + r.stderr)[-200:]
+        else:
+            err = apply_edits(dst, entry['edits'])
         if err:
             return (name, 'SKIP', err, '')
         # must still compile
